@@ -11,7 +11,7 @@ func init() {
 	Register(&Profile{Name: "edit-resync", Prop: "C16", Weight: 10, Quick: 60000, Thorough: 1500000, Sweep: c16SweepCount, Fn: editResync})
 	SetMeta("C16", &Meta{
 		Level: "exploration",
-		Rule: "one edited file A (random content) beside an intact file B; a single insertion or deletion of L bytes at position p (sweep: every p in [0,len] x every L in [1,2S+3] for small (S, len) pairs; seeded: random S in {4..256}, len a multiple of S or not, p biased to slice boundaries), or A's content under B's name / files swapped. Create is run with exactly as many recovery blocks as the edit geometrically touches (0 blocks: every recovery file deleted). Oracle from edit geometry, not from any scanner: usable >= N - touched, usable <= upper, Repair with exactly `touched` blocks restores the files. Non-trivial: the edit changed the file and left at least one slice of A relocated; distinct by (S, len mod S class, edit kind, p class, L class, touched).",
+		Rule:  "one edited file A (random content) beside an intact file B; a single insertion or deletion of L bytes at position p (sweep: every p in [0,len] x every L in [1,2S+3] for small (S, len) pairs; seeded: random S in {4..256}, len a multiple of S or not, p biased to slice boundaries), or A's content under B's name / files swapped. Create is run with exactly as many recovery blocks as the edit geometrically touches (0 blocks: every recovery file deleted). Oracle from edit geometry, not from any scanner: usable >= N - touched, usable <= upper, Repair with exactly `touched` blocks restores the files. Non-trivial: the edit changed the file and left at least one slice of A relocated; distinct by (S, len mod S class, edit kind, p class, L class, touched).",
 		Assumptions: []string{
 			"content is random, so accidental or overlapping matches are improbable; when the geometric bound exceeds the reference scanner's lower bound anyway, the run is counted under counters.geometry-above-lower and held to the scanner's bound",
 			"a short final slice counts as surviving only while it still ends the file (zero padding only at end of file), as the property states",
@@ -24,7 +24,8 @@ type c16Case struct {
 	S, N1  int  // slice size, length of file A
 	Del    bool // deletion instead of insertion
 	P, L   int
-	Rename int // 0 none, 1 swap, 2 copy A over B
+	Rename int  // 0 none, 1 swap, 2 copy A over B
+	Zeros  bool // the inserted bytes are zeros (seeded runs: only for p == len)
 }
 
 var c16Shapes = [][2]int{{4, 14}, {4, 16}, {8, 29}, {8, 32}, {12, 40}, {16, 50}, {20, 61}}
@@ -79,7 +80,8 @@ func c16SweepCount(tier string) int {
 // touchedSlices computes, from edit geometry alone, which slices of a
 // file of length n (slice size s) no longer exist contiguously after
 // inserting (del=false) or deleting (del=true) l bytes at p.
-func touchedSlices(n, s int, del bool, p, l int) (touched []bool) {
+func touchedSlices(n, s int, del bool, p, l int, zeros ...bool) (touched []bool) {
+	zeroIns := len(zeros) > 0 && zeros[0]
 	k := (n + s - 1) / s
 	touched = make([]bool, k)
 	for i := 0; i < k; i++ {
@@ -97,7 +99,9 @@ func touchedSlices(n, s int, del bool, p, l int) (touched []bool) {
 			case p >= end:
 				// entirely before; a short last slice is followed by inserted
 				// bytes instead of end of file
-				if short {
+				// (p == n here); unless the inserted bytes are zeros: then the
+				// slice is still followed by nothing but zeros up to end of file
+				if short && !zeroIns {
 					touched[i] = true
 				}
 			default:
@@ -182,6 +186,10 @@ func editResync(r *Run) {
 		if c.Del && c.P >= c.N1 {
 			c.P = c.N1 - 1
 		}
+		if !c.Del && c.Rename == 0 && c.P == c.N1 && t.Bool(1, 2, "zeros") {
+			// the file is extended by zero bytes
+			c.Zeros = true
+		}
 	}
 	seed := uint64(c.S*100000 + c.N1)
 	if r.SweepCase < 0 {
@@ -242,7 +250,7 @@ func editResync(r *Run) {
 		touched = nA - held
 		r.Probe("slices-held-by-intact-file")
 	default:
-		ts := touchedSlices(len(a), c.S, c.Del, c.P, c.L)
+		ts := touchedSlices(len(a), c.S, c.Del, c.P, c.L, c.Zeros)
 		for _, x := range ts {
 			if x {
 				touched++
@@ -264,8 +272,15 @@ func editResync(r *Run) {
 			for i := range ins {
 				ins[i] = byte(g.next())
 			}
+			if c.Zeros {
+				ins = make([]byte, c.L)
+				r.Probe("zero-extended")
+			}
 			edited = append(append(append([]byte(nil), a[:c.P]...), ins...), a[c.P:]...)
 			desc = fmt.Sprintf("insert %d bytes at %d", c.L, c.P)
+			if c.Zeros {
+				desc = fmt.Sprintf("append %d zero bytes", c.L)
+			}
 			if c.P%c.S == 0 {
 				r.Probe("insert-on-slice-boundary")
 			}
